@@ -81,6 +81,7 @@ func C14(ctx *core.Ctx, r *core.Report) {
 	sites := e.sites("K1 K2 K4")
 	e.record("crash", sites, c14Triage)
 	parallelIndex(ctx, r, e.reach, c14OutOfScope, c14ParallelTriage, 1)
+	fixedBuffer(ctx, r, e.reach, c14OutOfScope, nil, 2)
 	c14ModuleXorError(ctx, r)
 	c14GuardBacking(ctx, r)
 	c14Recursion(ctx, r, roots)
